@@ -256,6 +256,7 @@ class Check:
             "evaluations": int(self.evaluations), "distinct_nontrivial": int(self.nontrivial),
             "rule": self.rule, "samples": self.samples[:8] or ["(none)"],
             "known_findings_seen": sorted(known.keys()),
+            "known_finding_cases": {k: _count([sig for sig, _ in items]) for k, items in sorted(known.items())},
             "notes": self.notes[:50],
         })
         if self.exhaustive is not None:
@@ -271,6 +272,13 @@ class Check:
               % (self.pid, self.tier, self.seed, self.states, self.transitions, self.traces, self.evaluations,
                  self.nontrivial, len(known), len(seen), wall), flush=True)
         return rc
+
+
+def _count(sigs, top=40):
+    c = {}
+    for x in sigs:
+        c[x] = c.get(x, 0) + 1
+    return dict(sorted(c.items(), key=lambda kv: -kv[1])[:top])
 
 
 def load_known():
